@@ -52,6 +52,8 @@ def make_input(kind, shape, seed, dtype=torch.float64):
         flat[int(torch.randint(0, flat.numel(), (1,), generator=g))] = 1e6
     elif kind == 'ramp':
         x = torch.arange(int(np.prod(shape)), dtype=torch.float64).reshape(*shape) / 7.0 + 1.0
+    elif kind == 'small':
+        x = torch.randn(*shape, generator=g, dtype=torch.float64) * 1e-5
     elif kind == 'zeros':
         x = torch.zeros(*shape, dtype=torch.float64)
     else:
